@@ -699,6 +699,37 @@ def np_ravel(I, a, k):
     raise Unsupported('ravel')
 
 
+def np_flatten(I, a, k):
+    x = a[0]
+    if Mo.is_list(x):
+        items = Mo.seq_items(I, x)
+        if items is not None and any(Mo.is_list(r) for r in items):
+            raise Unsupported('flatten of a 2-d array')
+        return Mo.snapshot_copy(I, x)       # ndarray.flatten of a 1-d array: a copy
+    raise Unsupported('flatten')
+
+
+def np_squeeze(I, a, k):
+    x = a[0]
+    if numkind(x) is not None:
+        return x
+    items = Mo.seq_items(I, x) if Mo.is_list(x) else None
+    if items is not None and len(items) == 1 and numkind(items[0]) is not None:
+        return items[0]
+    raise Unsupported('squeeze of %r' % (x,))
+
+
+def np_eye(I, a, k):
+    n = a[0]
+    if isinstance(n, int):
+        rows = [I.st.alloc('clist', [1.0 if i == j else 0.0 for j in range(n)], nd=True) for i in range(n)]
+        return I.st.alloc('clist', rows, nd=True)
+    i_, j_ = z3.Int(I.st.fresh_name('eye_i')), z3.Int(I.st.fresh_name('eye_j'))
+    rows = z3.Lambda([i_], z3.Lambda([j_], z3.If(i_ == j_, z3.RealVal(1), z3.RealVal(0))))
+    I.st.trusted.add('numpy.eye(N): the N x N identity matrix')
+    return I.st.alloc('rows', {'len': zint(n), 'rows': rows, 'ncols': zint(n)}, name='eye', nd=True)
+
+
 def np_add_reduce(I, a, k):
     x = a[0]
     if Mo.is_list(x) and x.kind == 'clist':
@@ -866,6 +897,9 @@ def lib_lookup(I, dotted):
         'numpy.max': Builtin('numpy.max', lambda I_, a, k: np_max(I_, a, k, True)),
         'numpy.min': Builtin('numpy.min', lambda I_, a, k: np_max(I_, a, k, False)),
         'numpy.ravel': Builtin('numpy.ravel', np_ravel),
+        'numpy.flatten': Builtin('numpy.flatten', np_flatten),
+        'numpy.squeeze': Builtin('numpy.squeeze', np_squeeze),
+        'numpy.eye': Builtin('numpy.eye', np_eye),
         'numpy.argsort': Builtin('numpy.argsort', np_argsort),
         'numpy.take': Builtin('numpy.take', np_take),
         'numpy.seterr': Builtin('numpy.seterr', np_seterr),
@@ -887,6 +921,7 @@ def lib_lookup(I, dotted):
         'numpy.sqrt': Builtin('numpy.sqrt', lambda I_, a, k: Mo.power(I_, a[0], 0.5) if not Mo.is_list(a[0]) else _unsup('numpy.sqrt of an array')),
         'numpy.nan': Mo.Unknown('numpy.nan'),
         'copy.copy': Builtin('copy.copy', copy_copy), 'copy.deepcopy': Builtin('copy.deepcopy', copy_deepcopy),
+        'dill.copy': Builtin('dill.copy (assumed: structural copy with fresh references, as copy.deepcopy)', copy_deepcopy),
         'numbers.Integral': TypeTag('Integral'),
         'collections.abc.Callable': TypeTag('Callable'),
         'collections.Callable': TypeTag('Callable'),
